@@ -87,9 +87,9 @@ PROPS = {
     'C05': dict(num=5, sim=[('MON', 1)], quick=400000, thorough=2000000, flavours_quick=[('gcc_new', 14), ('cpp11', 2)], flavours_thorough=['gcc_new', 'c11', 'cpp11'],
                 rule='MON programs with timed / cancellable cv and mu waits, notes fresh / notified / expiring / child of an expiring parent, reader and writer mode; non-trivial = some wait returned ETIMEDOUT or ECANCELED; distinct = distinct (program hash, realized trace hash)'),
     'C06': dict(num=6, sim=[('MON', 1)], quick=400000, thorough=2000000, flavours_thorough=['gcc_new', 'c11', 'cpp11'],
-                rule='MON programs with 2..4 nsync_mu_wait callers over 6 condition classes; non-trivial = two conditional waiters were queued together and an unlocker evaluated a condition, or a conditional waiter left the queue by timeout/cancel while another was queued; distinct = distinct (program hash, realized trace hash)'),
+                rule='MON programs with 2..4 nsync_mu_wait callers over 6 condition classes, one in four built around the MU_ALL_FALSE hint (waiter + writer that makes its condition true and then blocks or unlocks under contention + reader / unlock_without_wakeup release); non-trivial = two conditional waiters were queued together and an unlocker evaluated a condition, or a conditional waiter left the queue by timeout/cancel while another was queued; distinct = distinct (program hash, realized trace hash)'),
     'C13': dict(num=13, sim=[(f, 1) for f in ('MON', 'REF', 'WAITN', 'MON', 'CTR', 'MON', 'NOTE', 'REF', 'MON', 'WAITN', 'MON', 'REF', 'CTR', 'WAITN', 'NOTE', 'MON')], quick=300000, thorough=2000000, flavours_thorough=['gcc_new', 'cpp11'],
-                rule='REF programs (reference-count pattern: lock; [timed mu_wait | cv_wait | signal]; last=(--refs==0); unlock; if last free) and WAITN/MON programs in which cv signal/broadcast, note notify and zeroing decrements race nsync_wait_n and cancellable waits whose deadline or other objects can end the wait at any moment; oracle = arena / fiber-stack lifetime tracking; non-trivial = the free happened while another thread was still inside its unlock on the object (REF), a wake-up overlapped a wait on the same object (WAITN), or a wait returned between the first and last step of a wake-up that could see it (MON); distinct = distinct (program hash, realized trace hash)'),
+                rule='REF programs (reference-count pattern: lock; [timed mu_wait | cv_wait | signal]; last=(--refs==0); unlock; if last free) and WAITN/MON/CTR/NOTE programs in which cv signal/broadcast, note notify and zeroing decrements race nsync_wait_n, nsync_counter_wait, nsync_note_wait and cancellable waits whose deadline or other objects can end the wait at any moment; oracle = arena / fiber-stack lifetime tracking; non-trivial = the free happened while another thread was still inside its unlock on the object (REF), a wake-up overlapped a wait on the same object (WAITN), or a wait returned between the first and last step of a wake-up that could see it (MON); distinct = distinct (program hash, realized trace hash)'),
     'C07': dict(num=7, sim=[('ONCE', 1)], quick=300000, thorough=2000000, flavours_thorough=['gcc_new', 'c11', 'cpp11'],
                 rule='ONCE programs: 2..4 callers x 4 variants x 3 once objects (two sharing an internal lock), once-functions with scheduling points and nested run_once; non-trivial = a caller arrived while the once word was 1 (function running); distinct = distinct (program hash, realized trace hash)'),
     'C08': dict(num=8, sim=[('NOTE', 1)], quick=300000, thorough=2000000, flavours_thorough=['gcc_new', 'c11', 'cpp11'],
@@ -97,9 +97,9 @@ PROPS = {
     'C09': dict(num=9, sim=[('NOTEFREE', 1)], quick=300000, thorough=2000000, flavours_thorough=['gcc_new', 'c11', 'cpp11'],
                 rule='NOTEFREE programs: parent-child-grandchild(+sibling,+second grandchild), 2..4 threads notify / poll / timed wait / new-child / free with a harness gate that lets a note be freed only after the other threads\' operations on that same note completed; oracle = no deadlock/livelock, no access to freed memory, final adoption check; non-trivial = a free overlapped a notify/free/create on a directly related note; distinct = distinct (program hash, realized trace hash)'),
     'C10': dict(num=10, sim=[('CTR', 1)], quick=300000, thorough=2000000, flavours_thorough=['gcc_new', 'c11', 'cpp11'],
-                rule='CTR programs: initial value 0..3 + prologue increments, 2..4 threads add(-1) / add(0) / value / wait / wait_n; oracle = linearizability of returned values against an integer, wait results against the value history, release at zero; non-trivial = a wait was in progress when the zeroing decrement started, or >=2 waiters were queued at zero; distinct = distinct (program hash, realized trace hash)'),
+                rule='CTR programs: initial value 0..3 + prologue increments, 2..4 threads add(-1) / add(0) / value / wait / wait_n, and (one program in four) arithmetic programs without waiters mixing add(+1) / add(-1) / add(0) / value; oracle = linearizability of returned values against an integer, wait results against the value history, release at zero; non-trivial = a wait was in progress when the zeroing decrement started, or >=2 waiters were queued at zero, or (arithmetic programs) an increment overlapped a decrement; distinct = distinct (program hash, realized trace hash)'),
     'C11': dict(num=11, sim=[(f, 1) for f in ('WAITN', 'MON', 'NOTE', 'MON', 'WAITN', 'MON', 'WAITN', 'MON', 'NOTE', 'MON', 'WAITN', 'MON', 'WAITN', 'MON', 'WAITN', 'MON')], quick=500000, thorough=2000000, flavours_thorough=['gcc_new', 'c11', 'cpp11'],
-                rule='WAITN programs: 1..2 nsync_wait_n callers over 1..5 objects (note / counter / cv / logging probe waitable; stack and heap bookkeeping), actors making objects ready before/during/after registration, deadlines past/future/none, with and without a logging mutex; MON programs with nsync_wait_n on a cv; non-trivial = a make-ready operation overlapped a call that lists the object; distinct = distinct (program hash, realized trace hash)'),
+                rule='WAITN programs: 1..2 nsync_wait_n callers over 1..5 objects (note / counter / cv / logging probe waitable; stack and heap bookkeeping), actors making objects ready before/during/after registration, deadlines past/future/none, with and without a logging mutex; MON programs with nsync_wait_n on a cv; NOTE programs (nsync_wait_n over notes with deadlines); non-trivial = a make-ready operation overlapped a call that lists the object; distinct = distinct (program hash, realized trace hash)'),
     'C12': dict(fuzz_runs_thorough=100000, num=12, level='fault_enumeration', sim=[('SEM', 1)], quick=60000, thorough=1500000, flavours_thorough=['gcc_new', 'cpp11'],
                 rule='SEM programs: the real nsync_semaphore_futex.c on the modelled futex; one waiter with a generated sequence of P / timed P, 1..2 posters, clock moves and either a generated vector of up to 8 injected futex faults (EINTR, EAGAIN, premature ETIMEDOUT, spurious 0) or, for one case in five, EVERY placement of up to 2 faults over the first 6 futex waits x 3 kinds (154 executions of that program and schedule; evaluations counts executions); non-trivial = a fault was consumed, the waiter blocked, or a CAS on the count failed (post landed between load and futex call); distinct = distinct (program hash incl. fault vector, realized trace hash)'),
     'C14': dict(fuzz_runs_thorough=200000, num=14, sim=[('STARVE', 1)], quick=20000, thorough=400000, flavours_thorough=['gcc_new'],
